@@ -1845,6 +1845,83 @@ func RNodeOpts(c *core.Ctx) {
 					return true
 				}
 			}
+			// a local that starts as p.options and from which only IgnoreCase is taken, each time under a case-freeness test
+			if id, ok := arg.(*ast.Ident); ok {
+				obj := info.ObjectOf(id)
+				if g == nil {
+					g = core.NewGraph(info, fd.Body)
+				}
+				base, masks, other := 0, 0, 0
+				masksOK := true
+				isIC := func(e ast.Expr) bool {
+					i2, ok := ast.Unparen(e).(*ast.Ident)
+					return ok && i2.Name == "IgnoreCase"
+				}
+				caseFreeAt := func(n ast.Node) bool {
+					b, _ := g.BlockOf(n)
+					if b == nil {
+						return false
+					}
+					for _, f := range g.FactsAt(b) {
+						found := false
+						ast.Inspect(f.Cond, func(y ast.Node) bool {
+							switch z := y.(type) {
+							case *ast.Ident:
+								if z.Name == "isReplacement" {
+									found = true
+								}
+							case *ast.CallExpr:
+								if f2 := core.Callee(info, z); f2 != nil && (core.BaseName(f2) == "useOptionI" || strings.Contains(core.BaseName(f2), "articipateInCaseConversion")) {
+									found = true
+								}
+							}
+							return true
+						})
+						if found {
+							return true
+						}
+					}
+					return false
+				}
+				ast.Inspect(fd.Body, func(x ast.Node) bool {
+					as, ok := x.(*ast.AssignStmt)
+					if !ok {
+						return true
+					}
+					for i, l := range as.Lhs {
+						lid, ok := l.(*ast.Ident)
+						if !ok || info.ObjectOf(lid) != obj || i >= len(as.Rhs) {
+							continue
+						}
+						r := ast.Unparen(as.Rhs[i])
+						switch {
+						case (as.Tok == token.DEFINE || as.Tok == token.ASSIGN) && core.FieldOf(info, r) == optField:
+							base++
+						case as.Tok == token.AND_NOT_ASSIGN && isIC(r):
+							masks++
+							if !caseFreeAt(as) {
+								masksOK = false
+							}
+						case as.Tok == token.AND_ASSIGN:
+							if u, ok := r.(*ast.UnaryExpr); ok && u.Op == token.XOR && isIC(u.X) {
+								masks++
+								if !caseFreeAt(as) {
+									masksOK = false
+								}
+							} else {
+								other++
+							}
+						default:
+							other++
+						}
+					}
+					return true
+				})
+				if base == 1 && other == 0 && masks > 0 {
+					c.Check(masksOK, key, call.Pos(), "`%s` is p.options with IgnoreCase removed somewhere without a dominating test that case cannot matter for this text", id.Name)
+					return true
+				}
+			}
 			c.Bad(key, call.Pos(), "the node is created with `%s`, not with the option word in force at this point of the pattern", types.ExprString(arg))
 			return true
 		})
